@@ -503,6 +503,28 @@ def _pregenerate(pre):
     return False
 
 
+def _run_on_small_stack(sc):
+    import threading
+
+    err = []
+
+    def body():
+        try:
+            sc.run()
+        except BaseException as e:  # re-raised in the caller: a harness problem, not an observation
+            err.append(e)
+
+    old = threading.stack_size(256 * 1024)
+    try:
+        th = threading.Thread(target=body, name="small-stack")
+        th.start()
+    finally:
+        threading.stack_size(old)
+    th.join()
+    if err:
+        raise err[0]
+
+
 def _run_plan(plan, cfg=None):
     """-> result dict: verdict ok|skipped|violation, violations, stats, digest, probes."""
     heap = SIM.heap
@@ -534,7 +556,12 @@ def _run_plan(plan, cfg=None):
     twins = []
     stats = {}
     for t in (0, 1):
-        sc = Scenario(plan, ks, t).run()
+        sc = Scenario(plan, ks, t)
+        if plan.get("small_stack"):
+            _run_on_small_stack(sc)
+            res["probes"] = dict(res.get("probes") or {}, histories_on_a_256KiB_stack=1)
+        else:
+            sc.run()
         twins.append(sc)
         for k, v in heap.stats.items():
             stats[k] = stats.get(k, 0) + v
@@ -705,6 +732,8 @@ def _shrink_candidates(plan):
 
     if plan.get("separate_modules"):
         p = cp(); p["separate_modules"] = None; yield p
+    if plan.get("small_stack"):
+        p = cp(); p["small_stack"] = False; yield p
     if plan.get("pre_generate"):
         p = cp(); p["pre_generate"] = []; yield p
         if len(plan["pre_generate"]) > 1:
